@@ -6,7 +6,9 @@ string texts dropped) taken after `Model/C18SyncProgs.lean` was last read agains
 source on every run and `Props/C18.lean` proves `Gen.Src.f = Expected.f` by `rfl` for every function below: an edit to the shutdown /
 start-up / queueing code of the stateless tracker, the crdt consensus component or `Cluster` breaks a named obligation. Re-snapshot
 only after re-reading the changed function against the model.
-Last snapshot: /repo 87856f0 (Cluster ready / Shutdown / watchPeers re-read against `progC…` of `Model/C18SyncProgs.lean`; `NewCluster` added).
+Round 8b (/repo 076a82e): added the tracker's `pin` / `unpin` / `Recover` / `recoverWithPinInfo`, the informers' `SetClient` / `Shutdown` / `GetMetric`
+and the checker's `NewChecker` / `alert` / `Alerts` / `Watch`, read against `Model/C18SyncProgs2.lean` (`progT…`, `progI…`, `progW…`).
+Last snapshot of the older entries: /repo 87856f0 (Cluster ready / Shutdown / watchPeers re-read against `progC…` of `Model/C18SyncProgs.lean`; `NewCluster` added).
 -/
 namespace CV.C18.Expected
 
@@ -90,6 +92,265 @@ def stateless_Tracker_Shutdown : List String := [
   "spt.wg.Wait()",
   "spt.shutdown = true",
   "return nil"
+]
+
+/-- pintracker/stateless/stateless.go: *Tracker pin -/
+def stateless_Tracker_pin : List String := [
+  "err := spt.rpcClient.CallContext(",
+  "ctx,",
+  "S,",
+  "S,",
+  "S,",
+  "op.Pin(),",
+  "&struct{}{},",
+  ")",
+  "if err != nil {",
+  "return err",
+  "}",
+  "return nil"
+]
+
+/-- pintracker/stateless/stateless.go: *Tracker unpin -/
+def stateless_Tracker_unpin : List String := [
+  "err := spt.rpcClient.CallContext(",
+  "ctx,",
+  "S,",
+  "S,",
+  "S,",
+  "op.Pin(),",
+  "&struct{}{},",
+  ")",
+  "if err != nil {",
+  "return err",
+  "}",
+  "return nil"
+]
+
+/-- pintracker/stateless/stateless.go: *Tracker Recover -/
+def stateless_Tracker_Recover : List String := [
+  "pi, ok := spt.optracker.GetExists(ctx, c)",
+  "if ok {",
+  "return spt.recoverWithPinInfo(ctx, pi)",
+  "}",
+  "return spt.recoverWithPinInfo(ctx, spt.Status(ctx, c))"
+]
+
+/-- pintracker/stateless/stateless.go: *Tracker recoverWithPinInfo -/
+def stateless_Tracker_recoverWithPinInfo : List String := [
+  "var err error",
+  "switch pi.Status {",
+  "case api.TrackerStatusPinError, api.TrackerStatusUnexpectedlyUnpinned:",
+  "pin := api.PinCid(pi.Cid)",
+  "if st, stErr := spt.getState(ctx); stErr == nil {",
+  "if statePin, getErr := st.Get(ctx, pi.Cid); getErr == nil {",
+  "pin = statePin",
+  "}",
+  "}",
+  "err = spt.enqueue(ctx, pin, optracker.OperationPin)",
+  "case api.TrackerStatusUnpinError:",
+  "err = spt.enqueue(ctx, api.PinCid(pi.Cid), optracker.OperationUnpin)",
+  "}",
+  "if err != nil {",
+  "return spt.Status(ctx, pi.Cid), err",
+  "}",
+  "return spt.Status(ctx, pi.Cid), nil"
+]
+
+/-- informer/disk/disk.go: *Informer SetClient -/
+def disk_Informer_SetClient : List String := [
+  "disk.mu.Lock()",
+  "disk.rpcClient = c",
+  "disk.mu.Unlock()"
+]
+
+/-- informer/disk/disk.go: *Informer Shutdown -/
+def disk_Informer_Shutdown : List String := [
+  "disk.mu.Lock()",
+  "disk.rpcClient = nil",
+  "disk.mu.Unlock()",
+  "return nil"
+]
+
+/-- informer/disk/disk.go: *Informer GetMetric -/
+def disk_Informer_GetMetric : List String := [
+  "disk.mu.Lock()",
+  "rpcClient := disk.rpcClient",
+  "disk.mu.Unlock()",
+  "if rpcClient == nil {",
+  "return &api.Metric{",
+  "Name: disk.Name(),",
+  "Valid: false,",
+  "}",
+  "}",
+  "var repoStat api.IPFSRepoStat",
+  "var metric uint64",
+  "valid := true",
+  "err := rpcClient.CallContext(",
+  "ctx,",
+  "S,",
+  "S,",
+  "S,",
+  "struct{}{},",
+  "&repoStat,",
+  ")",
+  "if err != nil {",
+  "valid = false",
+  "} else {",
+  "switch disk.config.MetricType {",
+  "case MetricFreeSpace:",
+  "size := repoStat.RepoSize",
+  "total := repoStat.StorageMax",
+  "if size < total {",
+  "metric = total - size",
+  "} else {",
+  "metric = 0",
+  "}",
+  "case MetricRepoSize:",
+  "metric = repoStat.RepoSize",
+  "}",
+  "}",
+  "m := &api.Metric{",
+  "Name: disk.Name(),",
+  "Value: fmt.Sprintf(S, metric),",
+  "Valid: valid,",
+  "}",
+  "m.SetTTL(disk.config.MetricTTL)",
+  "return m"
+]
+
+/-- informer/numpin/numpin.go: *Informer SetClient -/
+def numpin_Informer_SetClient : List String := [
+  "npi.mu.Lock()",
+  "npi.rpcClient = c",
+  "npi.mu.Unlock()"
+]
+
+/-- informer/numpin/numpin.go: *Informer Shutdown -/
+def numpin_Informer_Shutdown : List String := [
+  "npi.mu.Lock()",
+  "npi.rpcClient = nil",
+  "npi.mu.Unlock()",
+  "return nil"
+]
+
+/-- informer/numpin/numpin.go: *Informer GetMetric -/
+def numpin_Informer_GetMetric : List String := [
+  "npi.mu.Lock()",
+  "rpcClient := npi.rpcClient",
+  "npi.mu.Unlock()",
+  "if rpcClient == nil {",
+  "return &api.Metric{",
+  "Valid: false,",
+  "}",
+  "}",
+  "pinMap := make(map[string]api.IPFSPinStatus)",
+  "err := rpcClient.CallContext(",
+  "ctx,",
+  "S,",
+  "S,",
+  "S,",
+  "S,",
+  "&pinMap,",
+  ")",
+  "valid := err == nil",
+  "m := &api.Metric{",
+  "Name: MetricName,",
+  "Value: fmt.Sprintf(S, len(pinMap)),",
+  "Valid: valid,",
+  "}",
+  "m.SetTTL(npi.config.MetricTTL)",
+  "return m"
+]
+
+/-- monitor/metrics/checker.go:  NewChecker -/
+def metrics_NewChecker : List String := [
+  "return &Checker{",
+  "ctx: ctx,",
+  "alertCh: make(chan *api.Alert, AlertChannelCap),",
+  "metrics: metrics,",
+  "threshold: threshold,",
+  "failedPeers: make(map[peer.ID]map[string]int),",
+  "alertedFor: make(map[peer.ID]map[string]int64),",
+  "}"
+]
+
+/-- monitor/metrics/checker.go: *Checker alert -/
+def metrics_Checker_alert : List String := [
+  "mc.failedPeersMu.Lock()",
+  "defer mc.failedPeersMu.Unlock()",
+  "if _, ok := mc.failedPeers[pid]; !ok {",
+  "mc.failedPeers[pid] = make(map[string]int)",
+  "}",
+  "failedMetrics := mc.failedPeers[pid]",
+  "lastMetric := mc.metrics.PeerLatest(metricName, pid)",
+  "if lastMetric == nil {",
+  "lastMetric = &api.Metric{",
+  "Name: metricName,",
+  "Peer: pid,",
+  "}",
+  "}",
+  "if mc.alertedFor[pid] == nil {",
+  "mc.alertedFor[pid] = make(map[string]int64)",
+  "}",
+  "if mc.alertedFor[pid][metricName] != lastMetric.ReceivedAt {",
+  "mc.alertedFor[pid][metricName] = lastMetric.ReceivedAt",
+  "delete(failedMetrics, metricName)",
+  "}",
+  "if failedMetrics[metricName] >= MaxAlertThreshold {",
+  "mc.metrics.RemovePeerMetrics(pid, metricName)",
+  "delete(failedMetrics, metricName)",
+  "if len(mc.failedPeers[pid]) == 0 {",
+  "delete(mc.failedPeers, pid)",
+  "}",
+  "delete(mc.alertedFor[pid], metricName)",
+  "if len(mc.alertedFor[pid]) == 0 {",
+  "delete(mc.alertedFor, pid)",
+  "}",
+  "return nil",
+  "}",
+  "alrt := &api.Alert{",
+  "Metric: *lastMetric,",
+  "TriggeredAt: time.Now(),",
+  "}",
+  "select {",
+  "case mc.alertCh <- alrt:",
+  "failedMetrics[metricName]++",
+  "stats.RecordWithTags(",
+  "mc.ctx,",
+  "[]tag.Mutator{tag.Upsert(observations.RemotePeerKey, pid.Pretty())},",
+  "observations.Alerts.M(1),",
+  ")",
+  "default:",
+  "return ErrAlertChannelFull",
+  "}",
+  "return nil"
+]
+
+/-- monitor/metrics/checker.go: *Checker Alerts -/
+def metrics_Checker_Alerts : List String := [
+  "return mc.alertCh"
+]
+
+/-- monitor/metrics/checker.go: *Checker Watch -/
+def metrics_Checker_Watch : List String := [
+  "ticker := time.NewTicker(interval)",
+  "for {",
+  "select {",
+  "case <-ticker.C:",
+  "if peersF != nil {",
+  "peers, err := peersF(ctx)",
+  "if err != nil {",
+  "continue",
+  "}",
+  "mc.CheckPeers(peers)",
+  "} else {",
+  "mc.CheckAll()",
+  "}",
+  "case <-ctx.Done():",
+  "ticker.Stop()",
+  "return",
+  "}",
+  "}"
 ]
 
 /-- consensus/crdt/consensus.go:  New -/
